@@ -14,7 +14,7 @@ def run(rep: Report, tier: str, only=None) -> None:
 	# not yet existing combined container, or an invoke, as the very first step adds nothing over the 3-operation tier)
 	firsts = [o for o in range(NOPS) if o in (0, 1, 2, 3, 4, 5, 7, 12, 13, 14, 18, 19, 20, 24, 25, 26)] if thorough else list(range(NOPS))
 	for o1 in firsts:
-		jobs.append(Job('O2.history', H, func, {'o1': o1}, t, 'F', f'all histories of {4 if thorough else 3} operations over {NOPS} operation codes (first operation fixed per process), then a full observation sweep', ('combine', 'rebind', 'invoke_ok', 'invoke_rejected', 'resolve_rejected')))
+		jobs.append(Job('O2.history', H, func, {'o1': o1}, t, 'F', f'all histories of {4 if thorough else 3} operations over {NOPS} operation codes (first operation fixed per process' + (', second operation one of the 20 state-changing ones' if thorough else '') + '), then a full observation sweep', ('combine', 'rebind', 'invoke_ok', 'invoke_rejected', 'resolve_rejected')))
 	if only:
 		jobs = [j for j in jobs if j.obligation in only or j.obligation.split('.')[0] in only]
 	rep.functions = ['DI.bind/unbind/rebind/resolve/can_resolve/invoke/_clone/combine', 'LazyDI.instantiate/bind/unbind/resolve/can_resolve/_clone/combine', 'lang.module.to_fullyname/load_module_path']
